@@ -136,9 +136,10 @@ func Open(opt *Options) *DB {
 	utils.Panic(db.runRecoveryChecks())
 
 	wlog, err := wal.Open(wal.Config{
-		Dir:         opt.WorkDir,
-		SyncOnWrite: false,
-		FS:          db.fs,
+		Dir:              opt.WorkDir,
+		SyncOnWrite:      false,
+		FS:               db.fs,
+		ExternalSegments: true,
 	})
 	utils.Panic(err)
 	db.wal = wlog
